@@ -1206,3 +1206,103 @@ func ext۰sort۰Basic(fr *frame, args []value) value {
 }
 
 var _ = unsafe.Pointer(nil)
+
+// ---------------------------------------------------------------- reflect.DeepEqual
+
+func (i *interpreter) deepEqual(a, b value, depth int) bool {
+	if depth > 50 {
+		panic(unsupported("reflect.DeepEqual: too deep"))
+	}
+	switch x := a.(type) {
+	case iface:
+		y, ok := b.(iface)
+		if !ok {
+			return false
+		}
+		if x.t == nil || y.t == nil {
+			return x.t == nil && y.t == nil
+		}
+		if !types.Identical(x.t, y.t) {
+			return false
+		}
+		return i.deepEqual(x.v, y.v, depth+1)
+	case []value:
+		y, ok := b.([]value)
+		if !ok || (x == nil) != (y == nil) || len(x) != len(y) {
+			return false
+		}
+		for k := range x {
+			if !i.deepEqual(x[k], y[k], depth+1) {
+				return false
+			}
+		}
+		return true
+	case structure:
+		y, ok := b.(structure)
+		if !ok || len(x) != len(y) {
+			return false
+		}
+		for k := range x {
+			if !i.deepEqual(x[k], y[k], depth+1) {
+				return false
+			}
+		}
+		return true
+	case array:
+		y, ok := b.(array)
+		if !ok || len(x) != len(y) {
+			return false
+		}
+		for k := range x {
+			if !i.deepEqual(x[k], y[k], depth+1) {
+				return false
+			}
+		}
+		return true
+	case *value:
+		y, ok := b.(*value)
+		if !ok {
+			return false
+		}
+		if x == y {
+			return true
+		}
+		if x == nil || y == nil {
+			return false
+		}
+		return i.deepEqual(*x, *y, depth+1)
+	case *smap:
+		y, ok := b.(*smap)
+		if !ok || (x == nil) != (y == nil) {
+			return false
+		}
+		if x.len() != y.len() {
+			return false
+		}
+		if x == nil {
+			return true
+		}
+		for _, e := range x.entries {
+			v, ok := y.lookup(i, e.key)
+			if !ok || !i.deepEqual(e.val, v, depth+1) {
+				return false
+			}
+		}
+		return true
+	case *ssa.Function, *closure:
+		return false
+	}
+	if kindOf(a) != types.Invalid || isString(a) {
+		if kindOf(b) == types.Invalid && !isString(b) {
+			return false
+		}
+		return i.truth(equalsV(i, nil, a, b))
+	}
+	panic(unsupported(fmt.Sprintf("reflect.DeepEqual on %T", a)))
+}
+
+func init() {
+	externals["reflect.DeepEqual"] = func(fr *frame, a []value) value {
+		return fr.i.deepEqual(a[0], a[1], 0)
+	}
+}
